@@ -62,6 +62,17 @@ def list_to_arr(l):
                     body = mk_pv(c, to_x(items[k]), body)
                 return Arr([(nv, X.const(len(items)))], body)
             if not items: return Arr([(fresh("i"), X.const(0))], X.const(0))
+            rows = [r.items if isinstance(r, ListVal) and not r.per_iter else list(r) if isinstance(r, (list, tuple)) else None for r in items]
+            if items and all(r is not None for r in rows) and len({len(r) for r in rows}) == 1 and rows[0] and all(to_x(e) is not None for r in rows for e in r):
+                # a list of equally long rows of scalars: a 2-D array
+                nv, mv = fresh("i"), fresh("j")
+                def row_body(r):
+                    b = to_x(r[-1])
+                    for k in range(len(r) - 2, -1, -1): b = mk_pv(lm._cond_eq(X.var(mv), X.const(k), f"{mv}=={k}"), to_x(r[k]), b)
+                    return b
+                body = row_body(rows[-1])
+                for k in range(len(rows) - 2, -1, -1): body = mk_pv(lm._cond_eq(X.var(nv), X.const(k), f"{nv}=={k}"), row_body(rows[k]), body)
+                return Arr([(nv, X.const(len(rows))), (mv, X.const(len(rows[0])))], body)
         return Opaque("array from list")
     if isinstance(l, (tuple, list)): return list_to_arr(ListVal(list(l)))
     return l
@@ -549,6 +560,8 @@ def h_einsum(I, args, kw, st, n):
     for i_ in (1, 2):
         if len(args) > i_ and isinstance(args[i_], PV):
             return pv_apply(lambda x, i_=i_: x if is_opaque(x) else h_einsum(I, args[:i_] + [x] + args[i_ + 1:], kw, st, n), args[i_])
+    if args and isinstance(args[0], str) and args[0] != "ij,ij->i":
+        return _einsum_general(args[0], args[1:], st)
     if not args or args[0] != "ij,ij->i": return Opaque("einsum signature")
     A, B = as_arr(args[1]), as_arr(args[2])
     if A is None or B is None or A.ndim != 2 or B.ndim != 2: return Opaque("einsum operands")
@@ -556,6 +569,55 @@ def h_einsum(I, args, kw, st, n):
     if not ad.eq(bd): return Mismatch(f"einsum contraction lengths differ: {ad!r} vs {bd!r}")
     prod = lift2("*", A.body, subst_val(B.body, {bi: X.var(ai), bj: X.var(aj)}))
     return Arr([(ai, ac)], sum_over(aj, ad, prod))
+
+
+def _einsum_general(sig, ops, st):
+    """explicit signature 'ab,bc,...->out': out[...] = sum over the letters not in out of the product of the operands' elements"""
+    sig = sig.replace(" ", "")
+    if "->" not in sig or "." in sig: return Opaque("einsum signature")
+    lhs, out = sig.split("->")
+    subs = lhs.split(",")
+    if len(subs) != len(ops) or len(set(out)) != len(out): return Opaque("einsum signature")
+    arrs = []
+    for o in ops:
+        if isinstance(o, PV): return Opaque("einsum operand under a condition")
+        if isinstance(o, LocalArr): o = _arr(o, st)
+        if isinstance(o, ListVal): o = list_to_arr(o)
+        A = as_arr(o) if o is not None and not is_opaque(o) else None
+        if A is None or is_opaque(A): return Opaque("einsum operands")
+        arrs.append(A)
+    letter = {}; count = {}
+    prod = None
+    # the caller's model may carry one frequency bin at a time (a spectrum is a scalar): trailing letters without an axis are per-bin labels;
+    # they must be the same for every operand, occur in the output, and are dropped from it
+    dropped = set()
+    for sub, A in zip(subs, arrs):
+        if len(sub) > A.ndim: dropped |= set(sub[A.ndim:])
+    if dropped:
+        if any(ch not in out for ch in dropped): return Opaque("einsum operand rank")
+        subs2 = []
+        for sub, A in zip(subs, arrs):
+            eff = sub[:A.ndim]
+            if any(ch in dropped for ch in eff) or any(ch not in dropped for ch in sub[A.ndim:]): return Opaque("einsum operand rank")
+            subs2.append(eff)
+        subs = subs2; out = "".join(ch for ch in out if ch not in dropped)
+    for sub, A in zip(subs, arrs):
+        if len(sub) != A.ndim or len(set(sub)) != len(sub): return Opaque("einsum operand rank")
+        mp = {}
+        for ch, (v, c) in zip(sub, A.axes):
+            if ch not in letter: letter[ch] = fresh("e" + ch); count[ch] = c
+            elif not count[ch].eq(c):
+                try:
+                    if count[ch].as_int() is not None and c.as_int() is not None: return Mismatch(f"einsum extents differ for '{ch}': {count[ch]!r} vs {c!r}")
+                except Exception: pass
+            mp[v] = X.var(letter[ch])
+        b = subst_val(A.body, mp)
+        prod = b if prod is None else lift2("*", prod, b)
+    if any(ch not in letter for ch in out): return Opaque("einsum output letter")
+    for ch in letter:
+        if ch not in out: prod = sum_over(letter[ch], count[ch], prod)
+    if not out: return prod
+    return Arr([(letter[ch], count[ch]) for ch in out], prod)
 
 
 def h_vecdot(I, args, kw, st, n):
@@ -772,6 +834,18 @@ def h_finfo(I, args, kw, st, n):
 
 
 _reg("numpy.finfo", h_finfo)
+
+
+def h_next_fast_len(I, args, kw, st, n):
+    """smallest 5-/11-smooth length >= n: equal to n only for such n, an unrelated larger integer otherwise"""
+    x = _x(args[0]) if args else None
+    if x is None: return Opaque("next_fast_len")
+    return mk_fn("next_fast_len", [x], "nat")
+
+
+_reg("scipy.fft.next_fast_len", h_next_fast_len)
+_reg("scipy.fftpack.next_fast_len", h_next_fast_len)
+_reg("scipy.fft.next_fast_len", h_next_fast_len)
 _reg("numpy.divide numpy.true_divide", h_divide)
 def h_isclose(I, a, k, st, n):
     """np.isclose(a, b, rtol=1e-05, atol=1e-08): |a-b| <= atol + rtol*|b| elementwise."""
